@@ -7,7 +7,7 @@ V = '/verif'
 for prop in sorted(os.listdir(src)):
     if not re.match(r'C\d\d$', prop):
         continue
-    for mk in ('m1', 'm2', 'm3', 'm4', 'm5', 'm6', 'm7', 'm8'):
+    for mk in ('m1', 'm2', 'm3', 'm4', 'm5', 'm6', 'm7', 'm8', 'm9'):
         d = os.path.join(src, prop, mk)
         if not os.path.exists(os.path.join(d, 'patch.diff')) or not os.path.exists(os.path.join(d, 'result.txt')):
             continue
